@@ -254,6 +254,25 @@ pub fn cmd_pure(a: &[String]) {
                     if dn == "1" && a > ba {
                         viol.push((i, "C17".into(), "offer-above-balance".into(), line.clone()));
                     }
+                    // the stSei side is left with its share of the total (C17_share): total rewards in
+                    // stSei-reward coin (the bSei-reward balance valued at the inverse oracle price)
+                    // times stSei bonded over total bonded; whatever it holds above that is sold,
+                    // exactly — also when only one of the two tokens is bonded
+                    if st + b > 0 && price > 0 {
+                        use cosmwasm_std::Uint256;
+                        let u = |x: u128| Uint256::from(x);
+                        let rinv = u(e18) * u(e18) / u(price);
+                        let total = u(sa) + u(ba) * rinv / u(e18);
+                        let share = total * u(st) / (u(st) + u(b));
+                        if u(sa) > share {
+                            let want = u(sa) - share;
+                            if !(dn == "0" && u(a) == want) {
+                                viol.push((i, "C17".into(), "stsei-side-not-left-with-its-share".into(), format!("{} -> offered {} {} but the stSei side holds {} above its share", line, dn, a, want)));
+                            }
+                        } else if dn == "0" && a > 0 {
+                            viol.push((i, "C17".into(), "stsei-side-sold-below-its-share".into(), line.clone()));
+                        }
+                    }
                     n_ok += 1;
                     if a > 0 {
                         distinct.insert(line.clone());
